@@ -184,3 +184,26 @@ UNITS['dispatcher'] = dict(
       (r'^std::pair<const int, CallbackList<', 'record', 'WPair'),
     ],
 )
+
+ADQ = 'AnyData<16>'
+UNITS['anydata'] = dict(
+    tu='inst/anydata.cpp', filter=['AnyData', 'LargeData', 'anydata_internal_::func', 'anydata_internal_::doFunc', 'anydata_internal_::doGet', 'anydata_internal_::get'], std='c++11',
+    root=('ClassTemplateSpecializationDecl', 'AnyData'), root_q=ADQ,
+    extra_roots=[('CXXRecordDecl', 'LargeData', 'anydata_internal_::LargeData')],
+    free_functions=['funcFreeObject', 'funcDeleteObject', 'funcMoveConstruct', 'doFuncMoveConstruct', 'doGetAnyDataFunctions', 'getAnyDataFunctions'],
+    names={ADQ: 'AD', 'anydata_internal_::LargeData': 'LD', 'LargeData': 'LD', 'AnyData::LargeData': 'LD', 'Small': 'Small', 'Big': 'Big', 'anydata_internal_::AnyDataFunctions': 'ADF', 'AnyDataFunctions': 'ADF'},
+    value_records=['Small', 'Big'],
+    opaque_records=['Small', 'Big'],
+    ghost_sig=[],
+    type_subst=[('AnyData::LargeData', 'anydata_internal_::LargeData')],
+    fnptr_by_member=True,
+    layout_records={'AnyData<16>': 'AD'},
+    type_resubst=[(r'^(typename )?std::enable_if<.*>::type \*$', 'SfinaeTag')],
+    type_rules=[
+      (r'^SfinaeTag$', 'empty', 'int'),
+      (r'^std::array<(unsigned char|std::uint8_t|uint8_t), ', 'rawbuf', 'RawBuf'),
+      (r'^void \(\*(const)?\)\(void \*\)$', 'fnptr', 'FnTag'),
+      (r'^void \(\*(const)?\)\(void \*, void \*\)$', 'fnptr', 'FnTag'),
+      (r'^std::size_t$|^size_t$', 'builtin', 'unsigned long'),
+    ],
+)
